@@ -133,7 +133,7 @@ class HashMap(Map):
 
     def load(self, ebpf):
         for v in self.vars:
-            setattr(ebpf, v.name, ebpf.__class__.__dict__[v.name].default)
+            setattr(ebpf, v.name, v.default)
 
 
 class TheDict(MutableMapping):
